@@ -278,6 +278,19 @@ func checkC07(c *Ctx) {
 			return true
 		})
 	}
+	// the key under which an instance's info is stored: name, separator, type arguments — always with the separator,
+	// so the key of a non-generic type ("Name_") cannot be the key of an instance of a generic one ("Name_targ")
+	for _, name := range []string{"encodedKey", "rtToKey", "uniToKey", "lookupRecInfo", "updateRecInfo", "lookupUniInfo", "updateUniInfo"} {
+		c.expectNF(f, "C07.g", name, []string{map[string]string{
+			"encodedKey":    `frt.SInterP("%s_%s", p0, strings.Concat("_", slice.Map(FTypeToGo, p1)))`,
+			"rtToKey":       "encodedKey(p0.Name, p0.Targs)",
+			"uniToKey":      "encodedKey(p0.Name, p0.Targs)",
+			"lookupRecInfo": `seq[if(not(#1(dict.TryFind(var:g_recInfoDic, rtToKey(p0)))), seq[PanicNow(<msg>)])] #0(dict.TryFind(var:g_recInfoDic, rtToKey(p0)))`,
+			"updateRecInfo": "seq[dict.Add(var:g_recInfoDic, rtToKey(p0), p1)]",
+			"lookupUniInfo": `seq[if(not(#1(dict.TryFind(var:g_uniInfoDic, uniToKey(p0)))), seq[PanicNow(<msg>)])] #0(dict.TryFind(var:g_uniInfoDic, uniToKey(p0)))`,
+			"updateUniInfo": "seq[dict.Add(var:g_uniInfoDic, uniToKey(p0), p1)]",
+		}[name]}, "the info dictionaries are keyed by name + separator + printed type arguments, read and written through the same key function")
+	}
 }
 
 func rootGlobal(t ir.Term) *ir.Global {
